@@ -117,7 +117,7 @@ def sym_confidence(ctx, cfg):
     sizes = cfg.get("sizes") or [cfg["n"]] * ncoll
     pss, syms = [], []
     for cid in range(ncoll):
-        ps, s = conflib.make_collection(ctx, sizes[cid], cid, cfg.get("labels", "bool"), cfg.get("extra_level", False), cfg.get("suffix", ".pin"))
+        ps, s = conflib.make_collection(ctx, sizes[cid], cid, cfg.get("labels", "bool"), cfg.get("extra_level", False), cfg.get("suffix", ".pin"), mass_text=bool(cfg.get("mass_text")))
         pss.append(ps)
         syms.append(s)
     dedup = bool(SBool(z3.Bool("deduplication"))) if cfg.get("dedup") is None else cfg["dedup"]
@@ -283,6 +283,7 @@ def harnesses(tier):
         add("n=2,2 collections with prefixes", dict(n=2, collections=2, prefixes=["a", "b"], dedup=True, rollup=True, decoys=True))
         add("n=3,chunk symbolic,dedup+rollup", dict(n=3, sym_chunk=True, dedup=True, rollup=True, decoys=True))
         add("n=2,extra level,pm1 labels", dict(n=2, extra_level=True, labels="pm1", dedup=True, rollup=True, decoys=True))
+        add("n=3,chunk symbolic,dedup,masses written as 500 or 500.0", dict(n=3, sym_chunk=True, dedup=True, rollup=False, decoys=True, mass_text=True))
         add("n=2,2 collections into the same files", dict(n=2, collections=2, prefixes=[None, None], combined=True, dedup=True, rollup=True, decoys=True))
     else:
         add("n=2+2,2 collections into the same files,all switches", dict(n=2, collections=2, prefixes=[None, None], combined=True), 0.01)
@@ -292,6 +293,7 @@ def harnesses(tier):
         add("n=3+2,2 collections,prefixes", dict(n=3, collections=2, sizes=[3, 2], prefixes=["a", "b"], dedup=True, rollup=True), 0.01)
         add("n=3,extra level,zero labels", dict(n=3, extra_level=True, labels="zero", dedup=True, rollup=True, decoys=True), 0.01)
         add("n=3,parquet input", dict(n=3, suffix=".parquet", dedup=True, rollup=True, decoys=True), 0.01)
+        add("n=4,chunk symbolic,dedup+rollup,masses written as 500 or 500.0", dict(n=4, sym_chunk=True, dedup=True, rollup=True, decoys=True, mass_text=True), 0.01)
     from symx import world
     R = world.mod("mokapot.brew_rollup")
     S = world.mod("mokapot.streaming")
@@ -318,6 +320,7 @@ def real_collection(tmp, cid, c, label_enc="bool", suffix=".pin"):
     labcol = lab if label_enc == "bool" else [1 if t else (-1 if label_enc == "pm1" else 0) for t in lab]
     cols = {"SpecId": ["c%d_psm%d" % (cid, i) for i in range(n)], "Label": labcol, "ScanNr": [int(x) for x in c["scan"]], "ExpMass": [int(x) for x in c["mass"]],
             "Peptide": ["PEP%d" % int(x) for x in c["pep"]]}
+
     if c.get("extra"):
         cols["ModifiedPeptide"] = ["MOD%d" % int(x) for x in c["mod"]]
     cols["Proteins"] = ["prot%d_%d" % (cid, i) for i in range(n)]
@@ -326,6 +329,12 @@ def real_collection(tmp, cid, c, label_enc="bool", suffix=".pin"):
     p = Path(tmp) / ("coll%d%s" % (cid, suffix))
     if suffix == ".parquet":
         df.to_parquet(p, index=False)
+    elif c.get("mass_dec"):
+        # the text file spells each mass with or without a decimal point, as the counterexample says
+        # (the data frame handed to the oracle keeps the numbers)
+        txt = df.copy()
+        txt["ExpMass"] = [("%d.0" % int(x)) if d else ("%d" % int(x)) for x, d in zip(c["mass"], c["mass_dec"])]
+        txt.to_csv(p, sep="\t", index=False)
     else:
         df.to_csv(p, sep="\t", index=False)
     return p, df
